@@ -447,7 +447,10 @@ func pbCliDeserialize(pkt *pbx.ClientMsg) *ClientComMessage {
 			Topic: set.GetTopic(),
 		}
 		if sq := set.GetQuery(); sq != nil {
-			msg.Set.MsgSetQuery = *pbSetQueryDeserialize(sq)
+			// pbSetQueryDeserialize returns nil for a query with no members.
+			if q := pbSetQueryDeserialize(sq); q != nil {
+				msg.Set.MsgSetQuery = *q
+			}
 		}
 	} else if del := pkt.GetDel(); del != nil {
 		msg.Del = &MsgClientDel{
